@@ -6,7 +6,8 @@
 (* classes: A*B, trans, A+A-A, inv(A) det = adj (det # 0), pinv (the four       *)
 (* Moore-Penrose conditions, rank), SVD (U W V' = A, orthonormal factors),      *)
 (* Cholesky of N = A'A + I as SymMat / BandMat / CovMat (L D L' solves N x = y),*)
-(* and that every non-conforming operand pair raises an exception.              *)
+(* that every non-conforming operand pair raises an exception, and the scale    *)
+(* law pinv(sA) = pinv(A)/s, inv(sA) = inv(A)/s, rank(sA) = rank(A).            *)
 EXTENDS ExactLA, TLC, Json
 CONSTANTS Keep, Seed
 Vals == -2..2
@@ -37,4 +38,6 @@ Laws == phase = "done" =>
           /\ (Square => MatMul(A, Adjugate(A)) = Scale(Det(A), Identity(sh[1])))
           /\ (Square => ((Det(A) # 0) <=> (Rank(A) = sh[1])))
           /\ Rank(A) = Rank(Transpose(A))
+          /\ Rank(Scale(3, A)) = Rank(A)            \* rank, pseudo-inverse and inverse do not depend on the scale of A: the harness
+                                                    \* repeats SVD rank, pinv and inv on 2^20 A and 2^-50 A (exact scalings)
 =============================================================================
